@@ -38,6 +38,8 @@ CASES = {
     "normal_vec": (tfd.Normal, {"loc": ("var", "m", 0.5), "scale": 1.5}, [0.2, -0.4, 1.0]),
     "lognormal": (tfd.LogNormal, {"loc": 0.0, "scale": 0.5}, 1.7),
     "uniform_pm1": (tfd.Uniform, {"low": -1.0, "high": 1.0}, 0.3),
+    # the upper bound is a *weak* variable (2 * root): it is only as current as its last update
+    "uniform_weakhi": (tfd.Uniform, {"low": 0.0, "high": ("weak", "hi", 1.0)}, 1.0),
 }
 # bijector choices: (spec name, mode, maker(params_vars) -> (args for transform, fn(param values) -> TFP bijector))
 BIJ = {
@@ -69,6 +71,7 @@ COMPAT = {
     "normal_vec": ["scale_class_const", "scale_class_var"],
     "lognormal": ["exp_instance", "default"],
     "uniform_pm1": ["algsig_instance"],
+    "uniform_weakhi": ["default", "gb_default", "auto"],
 }
 
 
@@ -77,15 +80,21 @@ def _algsig():
     return AlgebraicSigmoid()
 
 
-def one_trace(rng, case, bname, parameter=True, observed=False, via_copy=False, per_obs=True, fail_first=False):
+def one_trace(rng, case, bname, parameter=True, observed=False, via_copy=False, per_obs=True, fail_first=False,
+              stale_before=False):
     """via_copy: the assignments are made on a deep copy of the built model (what the Goose interface and
     build_model(copy=True) work on); per_obs: the flag of the original distribution node."""
     dist_cls, pspec, x0 = CASES[case]
     mode, mk, bij_of = BIJ[bname]
     pvars, pvals = {}, {}
     kw = {}
+    pfactor = {}
     for k, v in pspec.items():
-        if isinstance(v, tuple):
+        if isinstance(v, tuple) and v[0] == "weak":
+            root = lsl.Var(jnp.float32(v[2]), name=v[1] + "_root")
+            kw[k] = lsl.Var(lsl.Calc(lambda r: 2.0 * r, root), name=v[1])
+            pvars[k], pvals[k], pfactor[k] = root, 2.0 * float(v[2]), 2.0
+        elif isinstance(v, tuple):
             pv = lsl.Var(jnp.float32(v[2]), name=v[1])
             pvars[k], pvals[k] = pv, float(v[2])
             kw[k] = pv
@@ -121,6 +130,12 @@ def one_trace(rng, case, bname, parameter=True, observed=False, via_copy=False, 
         f["flags"] = {"x": {"weak": bool(x.weak), "has_dist": bool(x.has_dist), "parameter": bool(x.parameter),
                             "observed": bool(x.observed)}}
         ev.append(f)
+    if stale_before and pvars:
+        # a parameter variable gets a new value after the graph was created and before the transformation (nothing is
+        # in a model yet, so nothing is flagged): the transformation must see the current value
+        k = sorted(pvars)[0]
+        pvals[k] = float(np.float32(pvals[k] * 1.7))
+        pvars[k].value = jnp.float32(pvals[k] / pfactor.get(k, 1.0))
     e = {"ev": "transform", "bij": bname}
     gb = lsl.GraphBuilder()
     model = None
@@ -164,7 +179,8 @@ def one_trace(rng, case, bname, parameter=True, observed=False, via_copy=False, 
     b = bij_now(pvals)
     t0 = b.inverse(jnp.asarray(x0, jnp.float32))
     e.update({"names": ["x", "x_transformed"], "flags": flags(), "orig_value": fl(xx.value), "new_value": fl(tv.value),
-              "copy_ok": copy_ok, "new_log_prob": fsum(tv.log_prob), "new_per_obs": bool(tv.dist_node.per_obs),
+              "copy_ok": copy_ok, "model_log_prob": fsum(model.log_prob), "model_log_prior": fsum(model.log_prior),
+              "new_log_prob": fsum(tv.log_prob), "new_per_obs": bool(tv.dist_node.per_obs),
               "new_lp_scalar": bool(np.ndim(tv.log_prob) == 0),
               "leaves": {"x": fl(x0), "t": fl(t0), "logp_b_t": fsum(orig_dist(pvals).log_prob(b.forward(t0))),
                          "fldj_t": fsum(fldj_total(b, t0))}})
@@ -181,7 +197,7 @@ def one_trace(rng, case, bname, parameter=True, observed=False, via_copy=False, 
                 k = rng.choice(sorted(pvars))
                 newv = pvals[k] * rng.uniform(1.2, 2.5)
                 pvals[k] = float(np.float32(newv))
-                model.vars[pvars[k].name].value = jnp.float32(newv)
+                model.vars[pvars[k].name].value = jnp.float32(newv / pfactor.get(k, 1.0))
                 target = pvars[k].name
         else:
             tnew = jnp.asarray(np.float32(rng.uniform(-1.5, 1.5)) + 0 * np.asarray(x0, np.float32))
@@ -230,6 +246,11 @@ def all_traces(rng, reps=1):
             if r == reps - 1 and (any(isinstance(v, tuple) for v in CASES[case][1].values()) or bname == "scale_class_var"):
                 # distribution / bijector parameters are variables: the same on a deep copy of the model
                 out.append(one_trace(rng, case, bname, via_copy=True))
+    # a parameter of the distribution changed between graph creation and the transformation
+    for case, bname in (("uniform_weakhi", "gb_default"), ("uniform_weakhi", "default"), ("uniform_weakhi", "auto"),
+                        ("uniform_varhi", "gb_default"), ("uniform_varhi", "default"), ("gamma_varparam", "gb_default"),
+                        ("invgamma", "gb_default"), ("gamma_varparam", "exp_instance")):
+        out.append(one_trace(rng, case, bname, stale_before=True))
     # a failing first call (raises after the early checks), then the proper one
     for case, bname in (("exponential", "exp_instance"), ("gamma_varparam", "default"), ("halfnormal", "auto"),
                         ("invgamma", "gb_default"), ("exponential", "softplus_class_hinge")):
